@@ -431,7 +431,7 @@ def c13_limits(rng, sid, nscen):
                 steps.append(pub(2, "al/" + rng.choice("abcd"), rng.randrange(2), "y%d" % n))
             steps.append(BARRIER)
         elif fam == "C":    # inbound: Topic Alias Maximum advertised by the broker
-            X = rng.choice([1, 2, 5, 10])
+            X = rng.choice([1, 2, 5, 10, 65535])      # (65535: the largest value the configuration accepts)
             cfg["srvaliasmax"] = X
             cfg["srvrecvmax"] = rng.choice([1, 3, 100, 65535])
             steps = [connect(1, "s", 5), sub(1, [{"n": "in/#", "qos": 1}]), connect(2, "p", 5)]
@@ -447,16 +447,36 @@ def c13_limits(rng, sid, nscen):
                     steps.append(pub(2, bound[a], rng.randrange(2), "x%d" % n, alias=a))
             steps.append(BARRIER)
             if rng.random() < 0.6:
-                bad = rng.choice([0, X + 1, 65535, "unbound"])
+                bad = rng.choice([0, X + 1, 65535, "unbound"] if X < 65535 else [0, "unbound"])
                 n += 1
                 if bad == 0:
                     steps.append(pub(2, "in/a", 1, "x%d" % n, alias=0, notopic=True))
                 elif bad == "unbound":
-                    free = [a for a in range(1, X + 1) if a not in bound]
+                    free = [a for a in range(1, min(X, 20) + 1) if a not in bound]
                     if free:
                         steps.append(pub(2, "in/a", 1, "x%d" % n, alias=free[0], notopic=True))
                 else:
                     steps.append(pub(2, "in/a", 1, "x%d" % n, alias=bad))
+                steps.append({"op": "sleep", "ms": 30})
+                steps.append(BARRIER)
+        elif fam == "D" and i % 12 == 3:
+            # inbound Receive Maximum across a session resume: a QoS 2 exchange opened on one connection is completed (PUBREL
+            # re-sent, [MQTT-4.4.0-1]) on the next one - that PUBCOMP answers no PUBLISH of the new connection; afterwards the
+            # limit is still R (and with R = 65535 the next publication is still welcome)
+            R = rng.choice([1, 2, 3, 65535])
+            cfg["srvrecvmax"] = R
+            steps = [connect(1, "s", 5), sub(1, [{"n": "rq/#", "qos": 2}]), connect(2, "p", 5, clean=False, expiry=100),
+                     pub(2, "rq/a", 2, "w0", pid=1, norel=True), BARRIER, {"op": "abort", "k": 2},
+                     connect(4, "p", 5, clean=False, expiry=100), {"op": "ack", "k": 4, "t": "pubrel", "pid": 1}, BARRIER]
+            if rng.random() < 0.5:
+                steps += [{"op": "ack", "k": 4, "t": "pubrel", "pid": 1}, BARRIER]        # a duplicate PUBREL: PUBCOMP again
+            if R == 65535:
+                steps += [pub(4, "rq/a", 1, "w1", pid=2), pub(4, "rq/a", 2, "w2", pid=3), BARRIER]
+            else:
+                for n in range(R):
+                    steps.append(pub(4, "rq/a", 2, "w%d" % (n + 1), pid=n + 2, norel=True))
+                steps.append(BARRIER)
+                steps.append(pub(4, "rq/a", rng.choice([1, 2]), "w%d" % (R + 1), pid=R + 2, norel=True))
                 steps.append({"op": "sleep", "ms": 30})
                 steps.append(BARRIER)
         elif fam == "D":    # inbound: Receive Maximum advertised by the broker
